@@ -51,11 +51,18 @@ class UserExit(Exception):
     """a `with` body that ends by raising"""
 
 
+class BaseExit(BaseException):
+    """a block left by something that is not an Exception (the family of
+    KeyboardInterrupt, SystemExit, GeneratorExit)"""
+
+
 # ------------------------------------------------------------- generation --
 def gen_kwargs(rng, allow_invalid=True):
     r = rng.random()
     if r < 0.15:
         kw = {'all': rng.choice(REACTIONS)}
+        if allow_invalid and rng.random() < 0.15:
+            kw['all'] = rng.choice(['bogus', 'Raise', ''])
         if rng.random() < 0.3:
             kw[rng.choice(KINDS)] = rng.choice(REACTIONS)
         return kw
@@ -93,7 +100,8 @@ def gen_block(rng, depth, budget):
         elif r < 0.88:
             out.append(['with', gen_kwargs(rng),
                         gen_block(rng, depth + 1, budget),
-                        'raise' if rng.random() < 0.3 else 'normal'])
+                        rng.choice(['raise', 'raise', 'raise_base'])
+                        if rng.random() < 0.3 else 'normal'])
         else:
             out.append(['try', gen_block(rng, depth + 1, budget)])
     return out
@@ -311,6 +319,8 @@ def exec_block(block, ctx):
         ctx.counter += 1
         if idx == ctx.fault_at:
             ctx.fault_fired = True
+            if idx % 3 == 2:
+                raise BaseExit('before statement %d' % idx)
             raise InjectedFault('before statement %d' % idx)
         op = st[0]
         ctx.stats['stmt.' + op] += 1
@@ -378,6 +388,8 @@ def exec_block(block, ctx):
                         exec_block(body, ctx)
                         if how == 'raise':
                             raise UserExit()
+                        if how == 'raise_base':
+                            raise BaseExit()
                 except C20Violation:
                     raise
                 except BaseException:
@@ -397,7 +409,7 @@ def exec_block(block, ctx):
             try:
                 exec_block(st[1], ctx)
                 ctx.trace.append('try-ok')
-            except (InjectedFault, UserExit):
+            except (InjectedFault, UserExit, BaseExit):
                 ctx.stats['try.caught'] += 1
                 ctx.trace.append('try-caught')
             except C20Violation:
@@ -431,7 +443,7 @@ def run_program(prog, fault_at):
     try:
         try:
             exec_block(prog, ctx)
-        except (InjectedFault, UserExit):
+        except (InjectedFault, UserExit, BaseExit):
             ctx.trace.append('escaped')
         # all blocks have exited: the profile is the bottom of the stack
         if len(ctx.stack) != 1:
@@ -476,7 +488,7 @@ def _variants(block):
             yield block[:i] + st[2] + block[i + 1:]
             for sub in _variants(st[2]):
                 yield block[:i] + [['with', st[1], sub, st[3]]] + block[i + 1:]
-            if st[3] == 'raise':
+            if st[3] != 'normal':
                 yield block[:i] + [['with', st[1], st[2], 'normal']] + \
                     block[i + 1:]
         elif st[0] == 'try':
